@@ -17,18 +17,23 @@ from harness.common import Ctx, load_corpus
 PROP = "C06"
 THEOREMS = [
     "IrVerif.Kernel.C06_atomic",
-    "IrVerif.Kernel.C06_update_atomic",
     "IrVerif.Kernel.C06_rename_values_atomic",
-    "IrVerif.Kernel.C06_sort_cycle_no_change",
 ]
 ASSUMPTIONS = [
-    "same alphabet and typing assumption as C01",
+    "same alphabet, typing assumption and exclusions as C01",
+    "C06_atomic is a corollary of C01_mutation_faithful: in the model a check that fails after the first write makes the "
+    "call raise WITH the partially written world; the theorem (hypothesis WF) says this never happens. Removed from the "
+    "theorem list because they were true by definition: C06_update_atomic (initializers.update is an operation of "
+    "C06_atomic; its validation is modelled as a dry run, not as the code's pending-names table) and "
+    "C06_sort_cycle_no_change (rfl)",
     "convenience.replace_all_uses_with with several pairs and convenience.replace_nodes_and_values are sequences of "
-    "public calls and are NOT atomic in the code (known findings D82, D83); the atomicity theorem does not cover "
-    "them, the model keeps their partial effects exactly like the code",
-    "KeyboardInterrupt / MemoryError in the middle of a call are out of scope; AssertionError counts as raised",
-    "the name authority's private counters and name sets are part of the compared state (they decide later names); "
-    "everything else in the oracle goes through public accessors",
+    "public calls and are NOT atomic in the code (known findings D82, D83, keyed on the position / sub-step that raised); "
+    "the atomicity theorem does not cover them, the model keeps their partial effects exactly like the code and the "
+    "comparison continues after them",
+    "exception types are compared against the documented rejections per call (an undocumented type is reported as "
+    "`kind:<call>:<type>`); KeyboardInterrupt / MemoryError in the middle of a call are out of scope",
+    "the name authority's counters / name sets and the tracked lists' reference counters are part of the compared state "
+    "(latent state deciding later names / flags); everything else in the oracle goes through public accessors",
 ]
 
 
